@@ -26,6 +26,10 @@ def _account_stream(stats, plan, tr):
             stats.probe('streams_with_a_definition_message')
             if plan['knobs'].get('filter'):
                 stats.probe('filtered_streams_with_a_definition_message')
+        if not lay['stream']:
+            stats.probe('streams_of_zero_octets')
+        if any('L' in it['cls'] for it in plan['items']):
+            stats.probe('streams_with_a_message_whose_header_exceeds_64KiB')
         if any(x for x in plan['seps']):
             stats.probe('streams_with_noise')
         if any(bytes.fromhex(x).endswith(b'BUF') for x in plan['seps'][:-1]):
@@ -101,6 +105,8 @@ def _account_stream(stats, plan, tr):
     elif fam == 'c17':
         if 'D' in plan['items'][0]['cls']:
             stats.probe('definition_message_decoded_metadata_only')
+        if 'L' in plan['items'][0]['cls']:
+            stats.probe('message_whose_header_exceeds_64KiB')
         stats.steps += 1 + len(plan.get('exprs', []))
         f = plan['items'][0].get('fault')
         if f:
@@ -198,6 +204,10 @@ def _account_def(stats, plan, tr):
             stats.probe('new_message_using_replication_only_sequence')
         if it.get('local_tables'):
             stats.probe('new_message_with_local_tables_defining_the_same_id')
+        if it.get('resent'):
+            stats.probe('definition_messages_sent_again_verbatim')
+        if it.get('after_resent_definition'):
+            stats.probe('new_message_after_a_resent_definition')
         if it.get('reused_template'):
             stats.probe('new_message_reusing_an_earlier_descriptor_list')
             if it.get('uses_redefined'):
@@ -299,7 +309,7 @@ def c08(tier):
                        '(corpus templates incl. marker operators, synthetic ones); deciding it for all templates is '
                        'translation validation, a different technique'],
         _account_hist, extra_cov=_extra_hist,
-        pool_kwargs=dict(HIST_POOL_THOROUGH, n_ops=500, n_tabled=-1) if tier == 'thorough' else dict(HIST_POOL, n_ops=60, n_tabled=50),
+        pool_kwargs=dict(HIST_POOL_THOROUGH, n_ops=500, n_tabled=-1) if tier == 'thorough' else dict(HIST_POOL, n_ops=50, n_tabled=50),
         design_ref='5.3')
 
 
